@@ -9,9 +9,16 @@ type CorpusQuery struct {
 	Ordered bool
 }
 
+// CorpusWitness: the witness of a known finding, with the printer options its spelling needs.
+type CorpusWitness struct {
+	CorpusQuery
+	Opt Printer
+}
+
 type CorpusCase struct {
-	Db      *Db
-	Queries []CorpusQuery
+	Db        *Db
+	Queries   []CorpusQuery
+	Witnesses []CorpusWitness
 }
 
 func ints(vs ...interface{}) []Value {
@@ -47,6 +54,8 @@ func Corpus() []CorpusCase {
 	notExists.Alt = true
 	notInList := Not(In(c(0, 0), []*Expr{n(2), Lit(Null())}))
 	notInList.Alt = true
+	notInNullLit := Not(InSub(c(0, 0), Project([]*Expr{Lit(Null())}, TableQ(1))))
+	notInNullLit.Alt = true
 	qs := []CorpusQuery{
 		{TableQ(0), ii, false},
 		{Filter(Cmp("lt", c(0, 0), c(0, 1)), TableQ(0)), ii, false},
@@ -94,5 +103,15 @@ func Corpus() []CorpusCase {
 		{Project([]*Expr{Between(c(0, 0), n(1), Lit(Null())), Un("istrue", Cmp("eq", c(0, 0), n(1)))}, TableQ(0)), ii, false},
 		{Filter(Cmp("lt", c(0, 2), Lit(Str("b"))), TableQ(1)), []Ty{TInt, TInt, TStr}, false},
 	}
-	return []CorpusCase{{Db: db, Queries: qs}}
+	// ---- witnesses of the known findings (regions of lean/Gms/Model/SqlQuirks.lean) ----
+	ws := []CorpusWitness{
+		// in_subquery_null_literal: x NOT IN (SELECT NULL FROM t1) is TRUE in the engine
+		{CorpusQuery{Filter(notInNullLit, TableQ(0)), ii, false}, Printer{}},
+		// exists_left_join_const_false: WHERE EXISTS (… t1 LEFT JOIN t2 ON 0) is FALSE in the engine
+		{CorpusQuery{Filter(Exists(Join("left", Lit(Int(0)), TableQ(1), TableQ(2))), TableQ(0)), ii, false}, Printer{}},
+		// setop_offset_before_sort: UNION ALL … ORDER BY 1 DESC LIMIT 3 OFFSET 2 skips before sorting
+		{CorpusQuery{Limit(3, 2, OrderBy([]*Expr{c(0, 0)}, []bool{true}, SetOp("union", true, Project([]*Expr{c(0, 1)}, TableQ(0)), Project([]*Expr{c(0, 1)}, TableQ(1))))),
+			i, true}, Printer{AllowSetopOffset: true}},
+	}
+	return []CorpusCase{{Db: db, Queries: qs, Witnesses: ws}}
 }
